@@ -41,8 +41,14 @@ namespace pika::experimental {
         /// \brief Wait for the event to occur.
         void wait()
         {
+#if defined(PIKA_VERIF)
+            PIKA_VERIF_POINT(940, this);    // wait: before the fast-path load
+#endif
             if (event_.load(std::memory_order_acquire)) return;
 
+#if defined(PIKA_VERIF)
+            PIKA_VERIF_POINT(941, this);    // wait: before the critical section (load, enqueue)
+#endif
             std::unique_lock<mutex_type> l(mtx_);
             wait_locked(l);
         }
@@ -50,8 +56,14 @@ namespace pika::experimental {
         /// \brief Release all threads waiting on this semaphore.
         void set()
         {
+#if defined(PIKA_VERIF)
+            PIKA_VERIF_POINT(942, this);    // set: before the store
+#endif
             event_.store(true, std::memory_order_release);
 
+#if defined(PIKA_VERIF)
+            PIKA_VERIF_POINT(943, this);    // set: before the critical section (notify_all)
+#endif
             std::unique_lock<mutex_type> l(mtx_);
             set_locked(std::move(l));
         }
